@@ -12,7 +12,11 @@ try:
     if spec[0] == "--patch":
         r = subprocess.run(["git", "-C", wt, "apply", os.path.abspath(spec[1])], capture_output=True, text=True)
         if r.returncode:
-            print("patch failed:", r.stderr); sys.exit(2)
+            # the tree has moved on since the change was seeded: try with fuzz
+            r2 = subprocess.run(["patch", "-p1", "--fuzz=3", "-d", wt, "-i", os.path.abspath(spec[1])], capture_output=True, text=True)
+            if r2.returncode:
+                print("patch failed:", r.stderr, r2.stdout[-300:]); sys.exit(2)
+            print("(applied with fuzz)")
     else:
         _, f, old, new = spec
         p = os.path.join(wt, f)
